@@ -390,6 +390,16 @@ def run_check(check_id, tier, seed, workers=None, max_report=None, quiet=False):
         wall_s=round(wall, 2),
         violations=len(reported),
     )
+    # reach probes: documented exit routes hit by this run (a probe stuck at zero says the workload must change)
+    routes = ['0:Success: Objective is sufficiently small', '0:Success: rho has reached rhoend', '0:Success: All points within noise level',
+              '0:Success: Reached maximum number of unsuccessful restarts', '1:Warning (max evals)', '2:Warning (slow progress)',
+              '3:Warning (max false good steps)', '4:Warning (auto-detected restart)', '5:Warning (trust region increase)',
+              '-1:Error (bad input)', '-2:Error (trust region increase)', '-3:Error (linear algebra)', '-4:Error (function evaluation)', 'EXC:', 'STEPCAP']
+    reach = {}
+    for r_ in routes:
+        reach[r_] = sum(v for k, v in total.get('exits', {}).items() if k.startswith(r_))
+    ev['coverage']['exit_routes_reached'] = reach
+    ev['coverage']['exit_routes_not_reached'] = [k for k, v in reach.items() if v == 0]
     if spec.get('evidence_extra'):
         spec['evidence_extra'](ev, total)
     if not ev['coverage']['samples']:
